@@ -365,7 +365,7 @@ pub fn run_cli_line(id: u64, line: &Value, bin: &str, workdir: &str) -> Value {
             if !args.iter().any(|a| a == "--json") {
                 args.insert(0, "--json".into());
             }
-            let r = run_bin(bin, &args, timeout);
+            let r = run_bin(bin, &args, Duration::from_secs(8));
             ev.insert("exit".into(), json!(r.exit));
             ev.insert("wellformed".into(), json!(gb(line, "wellformed")));
             let mut listed = Vec::new();
